@@ -371,6 +371,17 @@ theorem escape_of_escapeFree (s : Str) (h : escapeFree s = true) : escape s = s 
     simp only [escape, List.flatMap_cons, hc] at *
     simp [ih']
 
+@[simp] theorem subst_code (v : Str) : codeCfg.subst v = v := rfl
+
+@[simp] theorem subst_legacy (v : Str) : legacyCfg.subst v = escape v := rfl
+
+/-- whatever the configuration, a value free of the five characters is written as it is -/
+theorem subst_of_escapeFree (c : Cfg) (v : Str) (h : escapeFree v = true) : c.subst v = v := by
+  unfold Cfg.subst
+  split
+  · exact escape_of_escapeFree v h
+  · rfl
+
 theorem renderSegs_congr (sub sub' : Str → Str) (segs : List Seg) (h : ∀ n ∈ varNames segs, sub n = sub' n) :
     renderSegs sub segs = renderSegs sub' segs := by
   induction segs with
@@ -430,6 +441,27 @@ theorem resolutionOk_model (ex : Str → Bool) (q : Query) :
     simp [this]
 
 /-- the processed payload of a well-formed query, with the loader's re-parse resolved by the round trip -/
+theorem processComponentWith_wf (c : Cfg) (t : List Leaf) (q : Query) (vars : List (Str × Str)) (hq : wf q = true) :
+    processComponentWith c t q vars =
+      match yamlGet t (absRaw q) with
+      | none => .err "load"
+      | some content =>
+        match lexTemplate content with
+        | none => .unmodelled
+        | some segs =>
+          if (bindings vars).all (fun kv => validIdent kv.1) then
+            .ok (renderSegs (fun n => c.subst (lookup (bindings vars) n)) segs)
+          else .err "badident" := by
+  unfold processComponentWith
+  rw [parse_print q hq]
+  simp only [getComponent]
+  cases hg : yamlGet t (absRaw q) with
+  | none => cases yamlExists t (absRaw q) <;> simp
+  | some v =>
+    simp only [yamlGet_exists t _ v hg, if_true]
+    cases lexTemplate v <;> rfl
+
+/-- …for the code as it is: the supplied values themselves -/
 theorem processComponent_wf (t : List Leaf) (q : Query) (vars : List (Str × Str)) (hq : wf q = true) :
     processComponent t q vars =
       match yamlGet t (absRaw q) with
@@ -439,20 +471,16 @@ theorem processComponent_wf (t : List Leaf) (q : Query) (vars : List (Str × Str
         | none => .unmodelled
         | some segs =>
           if (bindings vars).all (fun kv => validIdent kv.1) then
-            .ok (renderSegs (fun n => escape (lookup (bindings vars) n)) segs)
+            .ok (renderSegs (fun n => lookup (bindings vars) n) segs)
           else .err "badident" := by
   unfold processComponent
-  rw [parse_print q hq]
-  simp only [getComponent]
-  cases hg : yamlGet t (absRaw q) with
-  | none => cases yamlExists t (absRaw q) <;> simp
-  | some v =>
-    simp only [yamlGet_exists t _ v hg, if_true]
-    cases lexTemplate v <;> rfl
+  rw [processComponentWith_wf codeCfg t q vars hq]
+  simp only [subst_code]
 
-theorem processedOk_model (t : List Leaf) (q : Query) (vars : List (Str × Str)) (hq : wf q = true)
-    (hesc : valuesEscapeFree t q vars = true) : processedOk t q vars (processComponent t q vars) = true := by
-  rw [processComponent_wf t q vars hq]
+/-- any configuration meets the substitution clause on values free of the five characters -/
+theorem processedOk_modelWith (c : Cfg) (t : List Leaf) (q : Query) (vars : List (Str × Str)) (hq : wf q = true)
+    (hesc : valuesEscapeFree t q vars = true) : processedOk t q vars (processComponentWith c t q vars) = true := by
+  rw [processComponentWith_wf c t q vars hq]
   unfold processedOk renderVerbatim
   unfold valuesEscapeFree at hesc
   cases hg : yamlGet t (absRaw q) with
@@ -465,14 +493,30 @@ theorem processedOk_model (t : List Leaf) (q : Query) (vars : List (Str × Str))
       simp only [hl, Option.map_some] at hesc ⊢
       by_cases hv : (bindings vars).all (fun kv => validIdent kv.1) = true
       · simp only [hv, if_true]
-        have : renderSegs (fun n => escape (lookup (bindings vars) n)) segs
+        have : renderSegs (fun n => c.subst (lookup (bindings vars) n)) segs
              = renderSegs (fun n => lookup (bindings vars) n) segs := by
           apply renderSegs_congr
           intro n hn
-          exact escape_of_escapeFree _ (List.all_eq_true.mp hesc n hn)
+          exact subst_of_escapeFree c _ (List.all_eq_true.mp hesc n hn)
         simp [this]
       · simp [hv]
 
+/-- the code as it is meets it on ALL values -/
+theorem processedOk_model (t : List Leaf) (q : Query) (vars : List (Str × Str)) (hq : wf q = true) :
+    processedOk t q vars (processComponent t q vars) = true := by
+  rw [processComponent_wf t q vars hq]
+  unfold processedOk renderVerbatim
+  cases hg : yamlGet t (absRaw q) with
+  | none => simp
+  | some content =>
+    simp only []
+    cases hl : lexTemplate content with
+    | none => simp
+    | some segs =>
+      simp only [Option.map_some]
+      by_cases hv : (bindings vars).all (fun kv => validIdent kv.1) = true
+      · simp [hv]
+      · simp [hv]
 
 
 /-! ## histories on one service -/
@@ -653,68 +697,67 @@ theorem processT_eq (t : List Leaf) (q : Query) (vars : List (Str × Str)) :
   simp only [List.find?_nil]
   cases compileP t (print q) <;> rfl
 
-theorem templatedOk_processT (t : List Leaf) (q : Query) (vars : List (Str × Str)) (hq : wf q = true)
-    (hesc : reqEscapeFree t q vars = true) : templatedOk t q vars (processT t q vars) = true := by
+theorem execT_eq (segs : List Seg) (vars : List (Str × Str)) :
+    execT segs vars =
+      if (bindings vars).all (fun kv => validIdent kv.1) then .ok (renderSegs (fun n => lookup (bindings vars) n) segs)
+      else .err "badident" := by
+  simp only [execT, execWith, subst_code]
+
+theorem templatedOk_processT (t : List Leaf) (q : Query) (vars : List (Str × Str)) (hq : wf q = true) :
+    templatedOk t q vars (processT t q vars) = true := by
   rw [processT_eq, compileP_wf t q hq]
   unfold templatedOk
-  unfold reqEscapeFree at hesc
   cases hl : linkedEntry t q with
   | unmodelled => rfl
   | err c => rfl
   | ok segs =>
-    simp only [hl] at hesc ⊢
-    unfold execT
+    simp only []
+    rw [execT_eq]
     by_cases hv : (bindings vars).all (fun kv => validIdent kv.1) = true
-    · simp only [hv, if_true]
-      have : renderSegs (fun n => escape (lookup (bindings vars) n)) segs
-           = renderSegs (fun n => lookup (bindings vars) n) segs := by
-        apply renderSegs_congr
-        intro n hn
-        exact escape_of_escapeFree _ (List.all_eq_true.mp hesc n hn)
-      simp [this]
+    · simp [hv]
     · simp [hv]
 
-theorem seqOk_runFresh (t : List Leaf) (ops : List Op) (hwf : opsWf ops = true) (hesc : seqEscapeFree t ops = true) :
+theorem seqOk_runFresh (t : List Leaf) (ops : List Op) (hwf : opsWf ops = true) :
     seqOk t ops ((runFresh t ops).map obsOfResp) = true := by
   induction ops generalizing t with
   | nil => rfl
   | cons op r ih =>
     cases op with
     | proc q v =>
-      simp only [opsWf, seqEscapeFree, Bool.and_eq_true] at hwf hesc
+      simp only [opsWf, Bool.and_eq_true] at hwf
       simp only [runFresh, step, List.map_cons, obsOfResp, seqOk, Bool.and_eq_true]
       rw [procStep_tree]
-      exact ⟨templatedOk_processT t q v hwf.1 hesc.1, ih t hwf.2 hesc.2⟩
+      exact ⟨templatedOk_processT t q v hwf.1, ih t hwf.2⟩
     | rproc q v =>
-      simp only [opsWf, seqEscapeFree, Bool.and_eq_true] at hwf hesc
+      simp only [opsWf, Bool.and_eq_true] at hwf
       have hr := resolutionOk_model (yamlExists t) q
       simp only [runFresh, step, freshSvc]
       cases hres : resolve (yamlExists t) q with
       | none =>
         simp only [hres] at hr
         simp only [List.map_cons, obsOfResp, seqOk, Bool.and_eq_true]
-        exact ⟨⟨hr, by decide⟩, ih t hwf.2 hesc.2⟩
+        exact ⟨⟨hr, by decide⟩, ih t hwf.2⟩
       | some rq =>
-        simp only [hres] at hr hesc
+        simp only [hres] at hr
         simp only [List.map_cons, obsOfResp, seqOk, Bool.and_eq_true]
         rw [procStep_tree]
-        exact ⟨⟨hr, templatedOk_processT t rq v (resolve_wf _ q rq hwf.1 hres) hesc.1⟩, ih t hwf.2 hesc.2⟩
+        exact ⟨⟨hr, templatedOk_processT t rq v (resolve_wf _ q rq hwf.1 hres)⟩, ih t hwf.2⟩
     | get q =>
-      simp only [opsWf, seqEscapeFree] at hwf hesc
+      simp only [opsWf] at hwf
       simp only [runFresh, step, freshSvc, List.map_cons, obsOfResp, seqOk, Bool.and_eq_true]
-      exact ⟨payloadOk_getComponent t q, ih t hwf hesc⟩
+      exact ⟨payloadOk_getComponent t q, ih t hwf⟩
     | inval =>
-      simp only [opsWf, seqEscapeFree] at hwf hesc
+      simp only [opsWf] at hwf
       simp only [runFresh, step, freshSvc, List.map_cons, obsOfResp, seqOk]
-      exact ih t hwf hesc
+      exact ih t hwf
     | put k c =>
-      simp only [opsWf, seqEscapeFree] at hwf hesc
+      simp only [opsWf] at hwf
       simp only [runFresh, step, freshSvc, List.map_cons, obsOfResp, seqOk]
-      exact ih _ hwf hesc
+      exact ih _ hwf
     | del k =>
-      simp only [opsWf, seqEscapeFree] at hwf hesc
+      simp only [opsWf] at hwf
       simp only [runFresh, step, freshSvc, List.map_cons, obsOfResp, seqOk]
-      exact ih _ hwf hesc
+      exact ih _ hwf
 
 /-! ## the plain fragment inside the extended one -/
 
@@ -880,7 +923,7 @@ theorem processT_plain (t : List Leaf) (q : Query) (vars : List (Str × Str)) (h
     processT t q vars = processComponent t q vars := by
   rw [processT_eq, compileP_wf t q hq, processComponent_wf t q vars hq]
   unfold linkedEntry
-  simp only [hg, hl, linkContent_plain _ _ content segs hl hb, LinkRes.map, flatten_map_seg, execT]
+  simp only [hg, hl, linkContent_plain _ _ content segs hl hb, LinkRes.map, flatten_map_seg, execT_eq]
 
 
 /-! ## the backend along a history -/
